@@ -84,7 +84,27 @@ class U:
         return [self.dim(n, lo) for n in names.split()]
 
     def tensor(self, name, shape, dtype):
-        return input_tensor(name, tuple(shape), dtype, self.ctx)
+        t = input_tensor(name, tuple(shape), dtype, self.ctx)
+        alias = getattr(self.ctx, "row_alias", None)
+        if alias is not None and name in alias["src"]:
+            # 2-run non-interference: row `row` of this batch IS row `src_row` of the other batch
+            # (same terms), every other row is unconstrained.
+            src, row, src_row = alias["src"][name], alias["row"], alias["src_row"]
+            own = t.snap()
+            ssrc = src.snap()
+
+            def elem(I, own=own, ssrc=ssrc, row=row, src_row=src_row):
+                i0 = I[0]
+                if is_z3(i0) and i0.eq(row):
+                    return ssrc((src_row,) + tuple(I[1:]))
+                if isinstance(i0, int):
+                    return z3.If(row == i0, ssrc((src_row,) + tuple(I[1:])), own(I))
+                return z3.If(i0 == row, ssrc((src_row,) + tuple(I[1:])), own(I))
+
+            a = mk(tuple(shape), dtype, elem, name=t.name, prov=("input", t.name))
+            self.ctx.inputs[t.name] = (a, tuple(shape), dtype)
+            return a
+        return t
 
     def td(self, batch, **keys):
         bs = tuple(batch) if isinstance(batch, (tuple, list)) else (batch,)
@@ -211,8 +231,27 @@ class U:
         return res
 
     # ---- obligations
-    def prove(self, name, goal, tags=None, note=""):
-        return self.ctx.oblige(name, ops.B_(goal), kind="post", tags=tuple(tags) if tags else self.udef.props, note=note)
+    def prove(self, name, goal, tags=None, note="", assume=False):
+        ob = self.ctx.oblige(name, ops.B_(goal), kind="post", tags=tuple(tags) if tags else self.udef.props, note=note)
+        if assume:
+            # a proved clause may serve as a lemma for the obligations that follow
+            self.ctx.assume(goal)
+        return ob
+
+    def prove_forall(self, name, shape, fn, tags=None, note=""):
+        """Prove fn at a fresh arbitrary index, then make the universally quantified fact available."""
+        rs = self._ranges(shape)
+        vs = []
+        rng = []
+        for k, (a, b) in enumerate(rs):
+            v = z3.Int(f"{self.ctx.prefix}{name}.g{k}")
+            self.ctx.scalars[f"{self.ctx.prefix}{name}.g{k}"] = (v, "i")
+            vs.append(v)
+            rng.append(z3.And(v >= zint(a), v < zint(b)))
+        goal = IMPL(AND(*rng), fn(*vs))
+        ob = self.ctx.oblige(name, ops.B_(goal), kind="post", tags=tuple(tags) if tags else self.udef.props, note=note)
+        self.ctx.assume(self.forall(shape, fn))
+        return ob
 
     def canary(self, name, goal, tags=None):
         """A deliberately wrong clause: must be refutable (guards against vacuity)."""
@@ -357,7 +396,7 @@ QUICK_MS = int(os.environ.get("TVC_QUICK_MS", "4000"))
 PAR = int(os.environ.get("TVC_UNIT_PAR", "4"))
 
 
-def _solve_forked(jobs, timeout_ms, use_cvc5):
+def _solve_forked(jobs, timeout_ms, use_cvc5, cvc5_s=None):
     """Solve each (ctx, ob) in a forked child: every query starts from the same solver state
     (verdicts do not depend on the order in which obligations are tried) and up to PAR run at once."""
     import pickle
@@ -374,7 +413,7 @@ def _solve_forked(jobs, timeout_ms, use_cvc5):
             if pid == 0:
                 os.close(r)
                 try:
-                    res = vc.solve(ctx, ob, timeout_ms=timeout_ms, use_cvc5=use_cvc5)
+                    res = vc.solve(ctx, ob, timeout_ms=timeout_ms, use_cvc5=use_cvc5, cvc5_s=cvc5_s)
                     payload = {"status": res.status if res.status != "refuted" else "refuted", "backend": res.backend,
                                "secs": res.secs, "reason": res.reason}
                 except Exception as e:  # pragma: no cover
@@ -453,7 +492,7 @@ def run_unit(name, repo_root=None, want_canaries=True, timeout_ms=None):
                 rec.update({"status": r["status"], "backend": r["backend"], "reason": r["reason"]})
 
     # phase 1: short budget
-    res1 = _solve_forked(jobs, QUICK_MS, use_cvc5=False) if jobs else []
+    res1 = _solve_forked(jobs, QUICK_MS, use_cvc5=True, cvc5_s=8) if jobs else []
     open_jobs = []
     for (ctx, ob), r in zip(jobs, res1):
         if r["status"] == "proved":
